@@ -133,6 +133,7 @@ def wl_history(ctx, rng, case):
         U = build_universe(q, r2, per_quot=r2.choice([2, 3, 4]))
         table = {f"key{i}": h for i, h in enumerate(U)}
         hf = gen.SimpleTable("qf", table, bits=32)
+        auto_now = auto
         f = P.QuotientFilter(quotient=q, auto_expand=auto, hash_function=hf)
         keys = list(table)
         S = set()
@@ -178,9 +179,9 @@ def wl_history(ctx, rng, case):
                     g(line_limit(max(size, 256), len(S) + 2), f.resize, q2)
                     want_q = f.quotient if q2 is None else q2
                     if q2 is None:
-                        ctx.check(f.quotient >= before[1] + 1 if auto else f.quotient == before[1] + 1, f"resize() did not double the filter (step {step})", got=f.quotient, before=before[1])
+                        ctx.check(f.quotient >= before[1] + 1 if auto_now else f.quotient == before[1] + 1, f"resize() did not double the filter (step {step})", got=f.quotient, before=before[1])
                     q_now = f.quotient
-                    probe(ctx, g, f, S, U, want_q, f"after resize({q2}) at step {step}", auto=auto)
+                    probe(ctx, g, f, S, U, want_q, f"after resize({q2}) at step {step}", auto=auto_now)
                     ctx.count("resizes")
                 except QuotientFilterError:
                     ctx.count("refused_resizes")
@@ -205,9 +206,17 @@ def wl_history(ctx, rng, case):
                 ctx.check(sorted(other.get_hashes()) == sorted(S2), f"merge modified its argument (step {step})")
                 merged_in.append((other, set(S2)))
             else:
-                mlf = r2.choice([0.5, 0.85, 0.99, 0.3])
-                case.op("max_load_factor", mlf)
-                f.max_load_factor = mlf
+                # the settings are public and writable in any state: another load limit (also below the present load, and 1 or beyond:
+                # the filter then fills to its last slot), or growing switched on / off for the table as it stands
+                if r2.random() < 0.6:
+                    mlf = r2.choice([0.5, 0.85, 0.99, 0.3, 0.05, 1.0, 1.5])
+                    case.op("max_load_factor", mlf)
+                    f.max_load_factor = mlf
+                else:
+                    auto_now = not auto_now
+                    case.op("auto_expand", auto_now)
+                    f.auto_expand = auto_now
+                    ctx.count("auto_expand_switched_in_mid_history")
             probe(ctx, g, f, S, U, None, f"after step {step} ({case.ops[-1]}), quotient {f.quotient}, {len(S)} stored")
             for o, So in merged_in[-2:]:
                 # a filter that was merged in earlier must not be affected by what happens to the receiver afterwards (no shared storage)
